@@ -27,6 +27,10 @@ class BlockError(Exception):
     pass
 
 
+class TeardownError(Exception):
+    pass
+
+
 def leaves(e: BaseException) -> list[BaseException]:
     if isinstance(e, BaseExceptionGroup):
         out = []
@@ -79,6 +83,10 @@ class C09(E1Check):
                     progs.append({"fctx": fctx, "handler": handler, "spawns": [s]})
                     if s["body"] in ("raise", "ret") and s["place"] == "F":
                         progs.append({"fctx": fctx, "handler": handler, "spawns": [s], "block_raises": True})
+                    if s["body"] in ("ret", "ret-td", "forever") and s["place"] in ("F", "task") and handler == "none" and s["how"] != "soon-cancel":
+                        # another (asynchronous) teardown callback of the owning context, registered after the factory was started, fails
+                        # while it is awaited: the factory's teardown step must still run and wait for the tasks
+                        progs.append({"fctx": fctx, "handler": handler, "spawns": [s], "td_raises": True})
                 pairs = list(itertools.product(spawn_opts, repeat=2))
                 for a, b in pairs:
                     if fctx == "root" and "after" in (a["place"], b["place"]):
@@ -344,6 +352,13 @@ class C09(E1Check):
                 st["snapshot"] = tuple(sorted(v.label for v in F.get_resources(Res).values()))
                 F.add_resource(Res("after"), "after")
                 F.add_resource_factory(lambda: Late(), "late", types=Late)  # registered after the task factory started
+                if program.get("td_raises"):
+                    async def failing_td() -> None:
+                        log("td-raises")
+                        await anyio.lowlevel.checkpoint()
+                        raise TeardownError("an unrelated teardown callback fails while it is awaited")
+
+                    F.add_teardown_callback(failing_td)
                 st["F"] = F
                 helpers_go: dict[int, anyio.Event] = {}
                 helpers_done: dict[int, anyio.Event] = {}
@@ -485,7 +500,9 @@ class C09(E1Check):
             if out is None or not any(x is st["raised"][i] for x in leaves(out) for i in unswallowed):
                 fail("swallowed", f"task exception(s) {[st['raised'][i] for i in unswallowed]!r} not swallowed by the handler but the root block ended with {out!r}")
             return
-        if out is not None and not (program.get("block_raises") and all(isinstance(x, BlockError) for x in leaves(out))):
+        if program.get("td_raises") and out is not None and all(isinstance(x, TeardownError) for x in leaves(out)):
+            pass  # the failing teardown callback's own exception comes out; nothing else may
+        elif out is not None and not (program.get("block_raises") and all(isinstance(x, BlockError) for x in leaves(out))):
             fail("unexpected-error", f"every task exception was swallowed but the root block raised {out!r}")
         # cancellation: exactly the cancelled handles' bodies see it
         cancelled = st.get("cancelled", set())
